@@ -104,12 +104,14 @@ Definition add_other (n : bytes) (s : store) : store :=
               (if mem_bytes n (st_others s) then st_others s else n :: st_others s).
 
 (* Datastore::system_time *)
+Definition time_back (now : Z) (s : store) : bool :=
+  match st_time s with
+  | Some (SDoc t) => (now <? t)%Z
+  | _ => false
+  end.
+
 Definition sys_time (fx : fixes) (now : Z) (w : world) : res Z * world :=
-  let back := match st_time (w_store w) with
-              | Some (SDoc t) => (now <? t)%Z
-              | _ => false
-              end in
-  if back then (Err E_TimeBack 0, w)
+  if time_back now (w_store w) then (Err E_TimeBack 0, w)
   else match ds_op fx w (upd_time (Some (SDoc now))) (upd_time (Some SCorrupt)) with
        | (Ok _, w') => (Ok now, w')
        | (Err c a, w') => (Err c a, w')
@@ -226,9 +228,10 @@ Fixpoint root_walk (fx : fixes) (fuel : nat) (cfg : config) (srv : server) (orig
         let name := root_json (r_version cur + 1) in
         let w1 := logged w name in
         match fetch srv name (c_max_root_size cfg) None with
-        | FErr 0 | FErr 1 => (Ok cur, w1)           (* fetch failed: go to step 1.8 *)
-        | FErr 5 => (Ok cur, w1)                    (* FileNotFound while streaming *)
-        | FErr sub => (Err E_Transport sub, w1)
+        | FErr sub =>
+            (* fetch failed (any reason), or FileNotFound while streaming: go to step 1.8 *)
+            if (sub =? 0) || (sub =? 1) || (sub =? 5) then (Ok cur, w1)
+            else (Err E_Transport sub, w1)
         | FOk file =>
             match f_body file with
             | CRoot new =>
@@ -255,40 +258,49 @@ Definition rm_ts_snap (fx : fixes) (w : world) : res unit * world :=
   | Ok _ => ds_op fx w1 (upd_snap None) (upd_snap None)
   end.
 
+(* step 1.9 compares the online keys of the final root with those of the reference root: the root
+   trusted at the end of the previous cycle when the datastore has it (after the repair of F5),
+   the shipped root otherwise *)
+Definition reference_root (fx : fixes) (r0 : root) (s : store) : root :=
+  if fx_prev_root fx then
+    match st_root s with
+    | Some (SDoc p) => p
+    | _ => r0
+    end
+  else r0.
+
+Definition rotated (reference r : root) : bool :=
+  negb (listN_eqb (role_keys reference 3) (role_keys r 3))
+  || negb (listN_eqb (role_keys reference 1) (role_keys r 1)).
+
+(* steps 1.8 - 1.9 *)
+Definition finish_root (fx : fixes) (cfg : config) (now : Z) (reference r : root) (w1 : world)
+  : res root * world :=
+  match check_expired fx cfg now (r_expires r) 0 w1 with
+  | (Err c a, w2) => (Err c a, w2)
+  | (Ok _, w2) =>
+      let '(rr, w3) := if rotated reference r then rm_ts_snap fx w2 else (Ok tt, w2) in
+      match rr with
+      | Err c a => (Err c a, w3)
+      | Ok _ =>
+          if fx_prev_root fx then
+            match ds_op fx w3 (upd_root (Some (SDoc r))) (upd_root (Some SCorrupt)) with
+            | (Err c a, w4) => (Err c a, w4)
+            | (Ok _, w4) => (Ok r, w4)
+            end
+          else (Ok r, w3)
+      end
+  end.
+
 Definition load_root (fx : fixes) (cfg : config) (shipped : content) (srv : server) (now : Z)
            (w : world) : res root * world :=
   match shipped with
   | CRoot r0 =>
       if negb (root_verify r0 0 (r_sigs r0)) then (Err E_VerifyTrusted 0, w)
       else
-        let reference :=
-          if fx_prev_root fx then
-            match st_root (w_store w) with
-            | Some (SDoc p) => p
-            | _ => r0
-            end
-          else r0 in
         match root_walk fx (c_fuel cfg) cfg srv (r_version r0) r0 w with
         | (Err c a, w1) => (Err c a, w1)
-        | (Ok r, w1) =>
-            match check_expired fx cfg now (r_expires r) 0 w1 with
-            | (Err c a, w2) => (Err c a, w2)
-            | (Ok _, w2) =>
-                let rotated :=
-                  negb (listN_eqb (role_keys reference 3) (role_keys r 3))
-                  || negb (listN_eqb (role_keys reference 1) (role_keys r 1)) in
-                let '(rr, w3) := if rotated then rm_ts_snap fx w2 else (Ok tt, w2) in
-                match rr with
-                | Err c a => (Err c a, w3)
-                | Ok _ =>
-                    if fx_prev_root fx then
-                      match ds_op fx w3 (upd_root (Some (SDoc r))) (upd_root (Some SCorrupt)) with
-                      | (Err c a, w4) => (Err c a, w4)
-                      | (Ok _, w4) => (Ok r, w4)
-                      end
-                    else (Ok r, w3)
-                end
-            end
+        | (Ok r, w1) => finish_root fx cfg now (reference_root fx r0 (w_store w)) r w1
         end
   | _ => (Err E_ParseTrusted 0, w)
   end.
@@ -436,6 +448,39 @@ Section Delegations.
           end
     end.
 
+  (* second loop of load_delegations: attach the fetched documents in listed order and recurse into
+     each; [rec] loads the delegations of a delegated role *)
+  Fixpoint second_loop
+           (rec : list N -> list (dhdr * option targets) -> list bytes -> world
+                  -> res (list (dhdr * option targets)) * world)
+           (ancestors : list bytes) (todo : list (dhdr * option targets))
+           (remaining : list (bytes * targets)) (w : world)
+    : res (list (dhdr * option targets)) * world :=
+    match todo with
+    | [] => (Ok [], w)
+    | (h, _) :: rest =>
+        match lookup (dh_name h) remaining with
+        | None => (Err E_NotConsistent 0, w)
+        | Some t =>
+            let remaining' := assoc_remove (dh_name h) remaining in
+            let '(rt, w1) :=
+              if tg_has_deleg t then
+                match rec (tg_dkeys t) (tg_roles t) (ancestors ++ [dh_name h]) w with
+                | (Ok rs, w') => (Ok (tg_set_roles t rs), w')
+                | (Err c a, w') => (Err c a, w')
+                end
+              else (Ok t, w) in
+            match rt with
+            | Err c a => (Err c a, w1)
+            | Ok t' =>
+                match second_loop rec ancestors rest remaining' w1 with
+                | (Ok rs, w2) => (Ok ((h, Some t') :: rs), w2)
+                | (Err c a, w2) => (Err c a, w2)
+                end
+            end
+        end
+    end.
+
   (* load_delegations on fuel (the code recurses without a bound) *)
   Fixpoint load_delegs (fuel : nat) (dkeys : list N) (roles : list (dhdr * option targets))
            (ancestors : list bytes) (w : world)
@@ -445,33 +490,7 @@ Section Delegations.
     | S f =>
         match fetch_level dkeys roles roles ancestors [] w with
         | (Err c a, w1) => (Err c a, w1)
-        | (Ok fetched, w1) =>
-            (fix second (todo : list (dhdr * option targets)) (remaining : list (bytes * targets))
-                 (w : world) : res (list (dhdr * option targets)) * world :=
-               match todo with
-               | [] => (Ok [], w)
-               | (h, _) :: rest =>
-                   match lookup (dh_name h) remaining with
-                   | None => (Err E_NotConsistent 0, w)
-                   | Some t =>
-                       let remaining' := assoc_remove (dh_name h) remaining in
-                       let '(rt, w1) :=
-                         if tg_has_deleg t then
-                           match load_delegs f (tg_dkeys t) (tg_roles t) (ancestors ++ [dh_name h]) w with
-                           | (Ok rs, w') => (Ok (tg_set_roles t rs), w')
-                           | (Err c a, w') => (Err c a, w')
-                           end
-                         else (Ok t, w) in
-                       match rt with
-                       | Err c a => (Err c a, w1)
-                       | Ok t' =>
-                           match second rest remaining' w1 with
-                           | (Ok rs, w2) => (Ok ((h, Some t') :: rs), w2)
-                           | (Err c a, w2) => (Err c a, w2)
-                           end
-                       end
-                   end
-               end) roles fetched w1
+        | (Ok fetched, w1) => second_loop (load_delegs f) ancestors roles fetched w1
         end
     end.
 End Delegations.
@@ -547,4 +566,31 @@ Definition cycle (fx : fixes) (cfg : config) (shipped : content) (srv : server) 
               end
           end
       end
+  end.
+
+(* ---------------------------------------------------------------------------------------- *)
+(* histories: update cycles sharing one datastore *)
+Record cyc := { cy_cfg : config; cy_shipped : content; cy_srv : server; cy_now : Z;
+                cy_fault : option (nat * N) }.
+
+Definition run_cycle (fx : fixes) (c : cyc) (s : store) : res repo * world :=
+  cycle fx (cy_cfg c) (cy_shipped c) (cy_srv c) (cy_now c) (world0 s (cy_fault c)).
+
+Fixpoint run_hist (fx : fixes) (h : list cyc) (s : store) : list (res repo * world) :=
+  match h with
+  | [] => []
+  | c :: rest => let rw := run_cycle fx c s in rw :: run_hist fx rest (w_store (snd rw))
+  end.
+
+(* the root a cycle's walk ends with (it does not depend on the datastore) *)
+Definition final_root (fx : fixes) (c : cyc) : option root :=
+  match cy_shipped c with
+  | CRoot r0 =>
+      if root_verify r0 0 (r_sigs r0) then
+        match root_walk fx (c_fuel (cy_cfg c)) (cy_cfg c) (cy_srv c) (r_version r0) r0 (world0 store0 None) with
+        | (Ok r, _) => Some r
+        | _ => None
+        end
+      else None
+  | _ => None
   end.
